@@ -17,7 +17,7 @@ EnvMC == [DOCKER_HOST |-> "tcp://dh:1"]
 Raw == (IF pre THEN <<DockerPrefix>> ELSE <<>>) \o toks
 
 Init == /\ kind \in {"sync", "fwd"} /\ pre \in BOOLEAN
-        /\ IF Mode = "flat" THEN toks = <<>> ELSE toks \in {GramAt(g) : g \in GramTuples}
+        /\ IF Mode = "flat" THEN toks = <<>> ELSE toks \in {GramAt(g) : g \in GramTuples} \cup {CaseAt(g) : g \in CaseTuples} \cup {SchemeAt(g) : g \in SchemeTuples}
 Next == /\ Mode = "flat" /\ Len(toks) < MaxLen
         /\ \E t \in Tokens : toks' = Append(toks, t)
         /\ UNCHANGED <<kind, pre>>
